@@ -11,6 +11,7 @@ package main
 // Every package-level identifier of this file starts with `lease`.
 
 import (
+	"bytes"
 	"context"
 	"errors"
 	"fmt"
@@ -911,6 +912,15 @@ func leaseMsg6(r *Rng, typ int, rc bool, mask []byte) string {
 			nIANA: r.Pick([]int{0, 1, 1, 1, 2, 3}), nIAPD: r.Pick([]int{0, 0, 1, 2}), extras: r.Chance(1, 5), dupIDs: r.Chance(1, 12)}
 		m := genInner6(r, s)
 		copy(m.TransactionID[:], mask)
+		if r.Chance(1, 12) {
+			// a server's answer that fills, or nearly fills or overfills, the client's
+			// 1500-octet receive buffer (a long vendor option, many addresses): a datagram
+			// of exactly 1500 octets is complete, not truncated (seeded change C13-14)
+			want := r.Pick([]int{1500, 1500, 1499, 1498, 1400})
+			if pad := want - len(m.ToBytes()) - 4; pad >= 0 {
+				m.AddOption(&dhcpv6.OptionGeneric{OptionCode: 4244, OptionData: bytes.Repeat([]byte{0x5a}, pad)})
+			}
+		}
 		t := sxMsg6(m)
 		if !strings.ContainsAny(t, "!@| ") {
 			return t
